@@ -116,6 +116,14 @@ impl Scenario for HeightLimit {
             } else if m > n {
                 cover("limit-grown");
             }
+            // the reconfiguration may happen with work pending (a write not yet propagated)
+            let pending_write = choose(2) == 1;
+            let x_early = fresh();
+            if pending_write {
+                v.set(x_early.clone());
+                cover("reconfigured-with-pending-work");
+                op_log("(a write is pending during the reconfiguration)".into());
+            }
             let r = catch(|| st.set_max_height_allowed(m));
             if let Err(msg) = r {
                 violation("C19/legal-reconfiguration-rejected", format!("set_max_height_allowed({m}) with greatest height {want} in use (was {n}): {msg}"));
@@ -124,8 +132,10 @@ impl Scenario for HeightLimit {
                 return;
             }
             // the old graph still works
-            let x1 = fresh();
-            v.set(x1.clone());
+            let x1 = if pending_write { x_early } else { fresh() };
+            if !pending_write {
+                v.set(x1.clone());
+            }
             match catch(|| st.stabilise()) {
                 Err(msg) => violation("C19/stabilise-panics-after-reconfiguration", msg),
                 Ok(()) => {
